@@ -60,3 +60,8 @@ func VerifFreshQueues() VerifQueues {
 
 // VerifRestoreQueues puts a saved pair back.
 func VerifRestoreQueues(q VerifQueues) { flushMemTablesQueue, compactionQueue = q.f, q.c }
+
+// VerifFlushIdle / VerifCompactionIdle report whether the process-wide flush / compaction queue
+// has nothing queued or running.
+func VerifFlushIdle() bool      { return flushMemTablesQueue.VerifIdle() }
+func VerifCompactionIdle() bool { return compactionQueue.VerifIdle() }
